@@ -241,3 +241,87 @@ POLICIES = {
     'edge_seeking': policy_edge_seeking,
     'interactive': policy_interactive,
 }
+
+
+class GoalMixPolicy:
+    """mostly follows a BFS plan over the real functional_step towards the exit
+    (so deep states - key held, door open - are reached), with random deviations
+    and deliberate drops of the held item; re-plans after deviating"""
+
+    PLAN_ACTIONS = (Action.MOVE_FORWARD, Action.TURN_LEFT, Action.TURN_RIGHT, Action.ACTUATE, Action.PICK_N_DROP)
+
+    def __init__(self, sink=None, p_random=0.05, p_drop=0.05, max_nodes=1500, stochastic=False, ctx=None):
+        self.ctx = ctx
+        self.sink = sink
+        self.p_random = p_random
+        self.p_drop = p_drop
+        self.max_nodes = max_nodes
+        self.stochastic = stochastic
+        self.plan = []
+        self.expected = None
+        self.plans = 0
+        self.failed = 0
+
+    def _replan(self, env, state):
+        from . import search
+        from .enc import es
+        from gym_gridverse.grid_object import Exit
+
+        was = self.sink.enabled if self.sink is not None else None
+        if self.sink is not None:
+            self.sink.enabled = False
+        try:
+            def goal(s, a, ns, r, d):
+                p = ns.agent.position
+                return isinstance(ns.grid[p.y, p.x], Exit)
+
+            def prune(s, a, ns):  # planning never drops what it holds
+                return a is Action.PICK_N_DROP and not isinstance(s.agent.grid_object, NoneGridObject)
+
+            acts = [a for a in self.PLAN_ACTIONS if a in env.action_space.actions]
+            from gym_gridverse.debugging import gv_debug, reset_gv_debug
+            dbg = gv_debug()
+            reset_gv_debug(False)
+            try:
+                if self.ctx is not None and self.ctx.out_of_time(0.9):
+                    status, path = 'skipped', None
+                else:
+                    status, path, _ = search.bfs(env, state, goal, self.max_nodes, stochastic=False, actions=acts,
+                                                 prune=prune)
+            except Exception:
+                status, path = 'error', None
+            finally:
+                reset_gv_debug(dbg)
+        finally:
+            if self.sink is not None:
+                self.sink.enabled = was
+        self.plans += 1
+        if status != 'found':
+            self.failed += 1
+            self.plan = []
+        else:
+            self.plan = list(path)
+
+    def __call__(self, rng, env, state):
+        from .enc import es
+
+        acts = env.action_space.actions
+        if self.expected is not None and es(state) != self.expected:
+            self.plan = []  # the world did not do what the plan assumed (stochastic dynamics / reset)
+        if Action.PICK_N_DROP in acts and not isinstance(state.agent.grid_object, NoneGridObject) \
+                and rng.random() < self.p_drop:
+            self.plan = []
+            self.expected = None
+            return Action.PICK_N_DROP
+        if rng.random() < self.p_random:
+            self.plan = []
+            self.expected = None
+            return rng.choice(acts)
+        if not self.plan:
+            self._replan(env, state)
+        if not self.plan:
+            self.expected = None
+            return rng.choice(acts)
+        a = self.plan.pop(0)
+        self.expected = None
+        return a
